@@ -22,7 +22,7 @@ RULE = (
     "case = (structure definition as JSON: 1-5 type names, acyclic relation graph from __root__ in which a child type "
     "may occur under several parents, fixed counts 0-3 or RangeRandomizer counts, `types` defaults incl. '*', "
     "relation specs overriding them, {idx}/{hier_idx} templates, every Randomizer class, probabilities in "
-    "{0.25,0.5,1.0}, optional :factory / :callback; integer seed; Tree or TypedTree; built twice from the same "
+    "{0.25,0.5,1.0}, optional :factory / :callback; integer seed; Tree or TypedTree; in two cases of five after an earlier build of another definition that failed three levels down (unknown macro name / raising callback); built twice from the same "
     "definition object). Oracle: validity predicate over the result (class, name, child types allowed by the "
     "relations, per-relation counts, merged attributes with expanded templates, randomized values inside declared "
     "ranges, skipped attributes absent, probability-1 attributes present, kind == type name). Non-trivial: >= 2 "
@@ -264,6 +264,20 @@ def run(case, rec):
     state = random.getstate()
     try:
         random.seed(case["seed"])
+        if case.get("failed_first"):
+            # an earlier build (same class, another definition) that fails while a node three levels down is being
+            # generated - an unknown macro name / a raising callback; the caller catches it and goes on
+            def boom(data):
+                raise ZeroDivisionError("callback of the failing definition")
+
+            last = {":count": 1, "title": "{no_such_macro}"} if case["failed_first"] == 1 else {":count": 1, "title": "x", ":callback": boom}
+            bad = {"relations": {"__root__": {"fa": {":count": 2, "title": "A{hier_idx}"}}, "fa": {"fb": {":count": 2, "title": "B{hier_idx}"}},
+                                 "fb": {"fc": last}}}
+            try:
+                cls.build_random_tree(bad)
+                rec.cls("failing-definition-did-not-fail")
+            except Exception:  # noqa: BLE001
+                rec.cls("after-a-failed-build")
         t1 = cls.build_random_tree(sd)
         w = validate(rec, case, t1, "build1")
         rec.evals += 1
@@ -389,6 +403,7 @@ def hyp_cases(draw, tier):
         "types": types,
         "relations": relations,
         "twice": draw(st.booleans()),
+        "failed_first": draw(st.sampled_from([0, 0, 0, 1, 2])),
     }
 
 
